@@ -78,8 +78,12 @@ def run(r: Run):
             if not close(peaks[0][0], exp0, rel=1e-9):
                 problems.append(f"first m/z {float(peaks[0][0])} != {float(exp0)}")
             for a, b in zip(peaks, peaks[1:]):
-                if not close(b[0] - a[0], NS / abs(z), rel=1e-6):
-                    problems.append("spacing")
+                # each m/z is (m + i*NS + z*c)/|z| in four roundings: the difference of two neighbours is the spacing up
+                # to a few ulps of the m/z values themselves (not a fixed relative tolerance: 1e-6 would hide a change
+                # of the constant in its 7th digit)
+                tol = 16 * Fraction(1, 2 ** 53) * max(abs(a[0]), abs(b[0])) + Fraction(1, 10 ** 15)
+                if abs((b[0] - a[0]) - NS / abs(z)) > tol:
+                    problems.append(f"spacing {float(b[0] - a[0]):.12f} instead of {float(NS / abs(z)):.12f}")
                     break
         lam = float(m) / 1800.0
         representable = n == 0 or lam == 0 or (n * __import__("math").log10(max(lam, 1e-300)) < 290 and n < 171)
@@ -135,15 +139,19 @@ def run(r: Run):
                             observed={"line": one})
             prev = (t, n)
             if ml is not None:
-                mn, margin_s = ml.split(":")
+                mn, margin_s, nspec = ml.split(":")
                 margin = None if margin_s == "inf" else Fraction(margin_s)
                 if margin is not None and margin < MARGIN:
                     skipped += 1
-                elif str(n) != mn:
+                elif str(n) != nspec:
                     corr_ok = False
                     r.violation("npeaks-minimal", {"kind": "differs"},
-                                f"n_peaks({float(m)}, {float(t)}) = {n}, exact minimal count is {mn}",
-                                expected=mn, observed={"line": one})
+                                f"n_peaks({float(m)}, {float(t)}) = {n}, the smallest count at which the Poisson term (lambda = mass/1800) "
+                                f"contributes less than 1-t is {nspec}", expected=nspec, observed={"line": one})
+                elif str(n) != mn:
+                    corr_ok = False
+                    r.violation("corr-npeaks", {"kind": "differs"}, f"n_peaks({float(m)}, {float(t)}) = {n}, model {mn}",
+                                expected=mn, observed={"line": one}, kind="corr_broken")
     r.coverage["boundary_skipped"] = skipped
     r.oblige("correspondence: poisson_approximation / poisson_approximate_n_peaks_of agree with the exact model", "corr", corr_ok)
     r.assumptions.append("f64 rounding and overflow are not modelled: the ratio law and minimality are compared where (mass/1800)^n is representable")
